@@ -1,6 +1,6 @@
 (* Model/Dispatch.v -- the single extracted entry point.  op numbers: <property>*100 + k *)
 From Coq Require Import ZArith List Bool.
-From B2Z Require Import Base.Prims Base.Sx Model.Partitions Model.IndexParse Model.BinArith Model.Schema Model.Overlap.
+From B2Z Require Import Base.Prims Base.Sx Model.Partitions Model.IndexParse Model.BinArith Model.Schema Model.Overlap Model.Icf.
 Import ListNotations.
 Open Scope Z_scope.
 
@@ -135,11 +135,38 @@ Definition d_C13 (k : Z) (arg : sx) : sx :=
   | _, _ => err_sx 2
   end.
 
+(* ---- C08 ---- *)
+Definition un_item (s : sx) : option (sx * Z) := match s with L [v; A sz] => Some (v, sz) | _ => None end.
+Definition un_range (s : sx) : option (nat * nat) := match s with L [A a; A b] => Some (Z.to_nat a, Z.to_nat b) | _ => None end.
+Definition un_ival (s : sx) : option (Z * list Z) :=
+  match s with L [A n; ints] => match as_ZL ints with Some l => Some (n, l) | None => None end | _ => None end.
+Definition sx_isum (s : isum) : sx :=
+  L [A (i_maxnum s); match i_bounds s with None => L [] | Some (lo, hi) => L [A lo; A hi] end].
+Definition d_C08 (k : Z) (arg : sx) : sx :=
+  match k, arg with
+  | 0, L [A thr; parts; ranges] =>
+      match un_list (un_list un_item) parts, un_list un_range ranges with
+      | Some ps, Some rs =>
+          let st := map (write_partition thr) ps in
+          L [ L (map (fun p => L (map L p)) st);
+              L (map (fun p => of_Zs (map Z.of_nat (cri p))) st);
+              of_Zs (map Z.of_nat (pri st));
+              L (all_values st);
+              L (map (fun r => L (iter_values st (fst r) (snd r))) rs) ]
+      | _, _ => err_sx 1 end
+  | 1, parts =>
+      match un_list (un_list un_ival) parts with
+      | Some ps => L [sx_isum (summarise_parts ps); sx_isum (summarise (concat ps))]
+      | None => err_sx 1 end
+  | _, _ => err_sx 2
+  end.
+
 Definition dispatch (op : Z) (arg : sx) : sx :=
   let p := op / 100 in
   let k := op mod 100 in
   match p with
   | 11 => d_C11 k arg
+  | 8 => d_C08 k arg
   | 9 => d_C09 k arg
   | 10 => d_C10 k arg
   | 13 => d_C13 k arg
